@@ -408,7 +408,7 @@ StateCfgs == {"listen", "zero"}
 (* "lclosed" = closed by the application; "closed" = closed by the peer.                   *)
 TableStates(f) ==
   CASE f = "ibb"  -> {"none", "open", "open1", "buffered", "mopen", "mopen1", "mbuffered", "lclosed", "closed"}
-    [] f = "hist" -> {"none", "tracked", "delivered", "done"}
+    [] f = "hist" -> {"none", "tracked", "delivered", "done", "abandoned"}    \* abandoned: the application closed the iterator before the query ended
     [] f = "rcpt" -> {"none", "pending", "acked"}
     [] f = "muc"  -> {"none", "joining", "joined", "leaving", "left"}
     [] OTHER      -> {"none"}
@@ -443,7 +443,8 @@ SetupSteps(f) ==
     [] f = "hist" ->
          {Step(<<"app:hist_fetch">>, {"none"}, "tracked"),
           Step(<<Exp("hist.result")>>, {"tracked"}, "delivered"),
-          Step(<<"hist.fin/history.Fetch#result-expected">>, {"tracked", "delivered"}, "done")}
+          Step(<<"hist.fin/history.Fetch#result-expected">>, {"tracked", "delivered"}, "done"),
+          Step(<<"app:hist_abandon">>, {"none"}, "abandoned")}
     [] f = "rcpt" ->
          {Step(<<"app:rcpt_send">>, {"none"}, "pending"),
           Step(<<Exp("rcpt.received")>>, {"pending"}, "acked")}
@@ -516,7 +517,7 @@ NSeqScenarios == 2 * Cardinality(SingleLabels) * Cardinality(StateCfgs) + Cardin
 (* design-level facts about the generator (checked by TLC as ASSUMEs of MCPeerInput)   *)
 C09_EveryTableStateReachable == \A f \in Stateful : TableStates(f) \subseteq ReachedStates(f)
 C09_LabelsUnique == Cardinality(Labels) = Cardinality(Alphabet)
-AppNames == {"app:hist_fetch", "app:rcpt_send", "app:rcpt_elem", "app:muc_join", "app:muc_leave", "app:ibb_write",
+AppNames == {"app:hist_fetch", "app:hist_abandon", "app:rcpt_send", "app:rcpt_elem", "app:muc_join", "app:muc_leave", "app:ibb_write",
              "app:ibb_lclose", "app:ibb_open"}
 MaxItems == 7      \* the longest scenario (thorough tier: setup of 4 steps, a probe twice, a helper call)
 (* every item of every sequence is a known stanza or application action: the sequences are    *)
